@@ -107,12 +107,9 @@ def check_binding(res, repo, prop="C08"):
         return
     c = ctor[0]
     first = c.args[0] if c.args else next((k.value for k in c.keywords if k.arg == "candles"), None)
-    # R-ALIAS: candles for a new manager are a deep copy made for this manager (inside the loop)
-    has_dc = first is not None and any(isinstance(n, ast.Call) and call_name(n) == "deepcopy" for n in ast.walk(first))
-    if has_dc and "DEFAULT_CANDLES" in ast.unparse(first):
-        res.ok("R-ALIAS", {"site": f"{vi.where} {norm_construct(first)}", "why": "each new timeframe manager gets its own deep copy of the base candles"}, nontrivial="validate:deepcopy")
-    else:
-        res.fail("R-ALIAS", finding(prop, "R-ALIAS", vi, first if first is not None else c, "a new timeframe manager must be built from a deep copy of the base candles made for that manager; sharing Candle objects between managers lets one timeframe's collapse rewrite another's candles"))
+    from ..ownership import check_raw_copies
+
+    check_raw_copies(prop, res, repo, want=("validate",))
     kws = {k.arg: ast.unparse(k.value) for k in c.keywords}
     want = {"candles_lifespan": "self.candles_lifespan", "timeframe_fill": "self.timeframe_fill", "candlestick_type": "self.candlestick_type"}
     for k, v in want.items():
@@ -158,12 +155,9 @@ def run(repo, tier) -> Result:
     check_rebind("C08", res, repo)
     check_own("C08", res, repo)
     check_append_order("C08", res, repo)
-    ap = repo.method("hexital.core.candle_manager", "CandleManager", "append")
-    dc = [c for c in calls_in(ap.node) if call_name(c) == "deepcopy"]
-    if dc and any(call_target(e) == "self.candles.extend" and dc[0] in list(ast.walk(e)) for e in calls_in(ap.node)):
-        res.ok("R-ALIAS", {"site": ap.where, "why": "non-default managers extend with deepcopy(candles_)"})
-    else:
-        res.fail("R-ALIAS", finding("C08", "R-ALIAS", ap, ap.node, "non-default managers must deep-copy appended candles", construct="CandleManager.append: deepcopy"))
+    from ..ownership import check_raw_copies
+
+    check_raw_copies("C08", res, repo, want=("method", "append"))
     res.rule("R-TABLE", floor=60)
     res.rule("R-BIND", floor=8)
     return res
